@@ -42,7 +42,7 @@ func c05Worlds(tier string) []explore.Case {
 		picks = append(picks, pick{"S:wide-14", 1, ""}, pick{"S:dep-attr", 0, ""}, pick{"S:targetable-block", 0, ""}, pick{"S:addr-forms", 2, ""}, pick{"S:dep-2level", 0, ""},
 			pick{"S:dep-label", 0, ""}, pick{"S:ext-CFDS", 0, ""}, pick{"C:Object{foo:Any{string},bar:LiteralType{bool}}/CFDS", -1, "attr = { foo = decl.foo, bar = true }\ndecl \"foo\" {\n  bar = \"x\"\n}\n"})
 	} else {
-		picks = append(picks, pick{"S:wide-14", 1, ""})
+		picks = append(picks, pick{"S:wide-14", 1, ""}, pick{"S:dep-2level", 0, ""})
 	}
 	// a dependent body whose nested block has extensions of its own, under DynamicBlocks; the same
 	// nested block schema is reachable from a second block type
